@@ -1675,9 +1675,18 @@ class SoftAbsRegularizedPositiveDefiniteMatrix(
 
     def grad_quadratic_form_inv(self, vector: NDArray) -> NDArray:
         num_j_mtx = self.eigval[:, None] - self.eigval[None, :]
-        num_j_mtx += np.diag(self.grad_softabs(self.unreg_eigval))
         den_j_mtx = self.unreg_eigval[:, None] - self.unreg_eigval[None, :]
-        np.fill_diagonal(den_j_mtx, 1)
+        # Divided differences tend to the derivative where (unregularized)
+        # eigenvalues coincide, including on the diagonal; below a separation of
+        # order sqrt(machine epsilon) cancellation error exceeds the error of
+        # using the limit
+        scale = np.maximum(1, np.abs(self.unreg_eigval).max())
+        coincident = np.abs(den_j_mtx) <= np.finfo(np.float64).eps ** 0.5 * scale
+        grad_softabs = self.grad_softabs(self.unreg_eigval)
+        num_j_mtx[coincident] = np.broadcast_to(
+            grad_softabs[:, None], num_j_mtx.shape
+        )[coincident]
+        den_j_mtx[coincident] = 1
         j_mtx = num_j_mtx / den_j_mtx
         e_vct = (self.eigvec.T @ vector) / self.eigval
         return -((self.eigvec @ (np.outer(e_vct, e_vct) * j_mtx)) @ self.eigvec.T)
